@@ -324,7 +324,15 @@ func updatePath(cur Val, path []int, v Val) Val {
 func (st *State) storeKey(kind PtrKind, key string, base, idx *Term, t types.Type, v Val) {
 	if scalarSort(t) == nil || isRefLike(t) {
 		st.vc.escWhy = "store to " + key
-		st.vc.markEscaped(st, v)
+		if _, isLocal := st.vc.localObjs[base]; isLocal && base != nil {
+			// stored into an object of ours that nobody else can reach yet: the value escapes when the container does
+			if st.vc.heldBy == nil {
+				st.vc.heldBy = map[*Term][]Val{}
+			}
+			st.vc.heldBy[base] = append(st.vc.heldBy[base], v)
+		} else {
+			st.vc.markEscaped(st, v)
+		}
 	}
 	if s := scalarSort(t); s != nil {
 		st.writeLeaf(kind, key, base, idx, st.toTerm(v, t))
@@ -406,11 +414,15 @@ func (st *State) toIface(v Val) *IfaceV {
 func (st *State) havocPrefix(prefix string, why string) {
 	for _, name := range st.vc.reg.sorted() {
 		if keyHasPrefix(name, prefix) {
+			if st.vc.isStable(name) {
+				continue
+			}
 			ki := st.vc.reg.m[name]
 			before := st.heapVar(ki)
 			st.heap[name] = Fresh("hv:"+name, ki.Sort)
 			st.touchKey(name)
 			st.restoreLocals(name, before)
+			st.monotone(name, before)
 		}
 	}
 	st.vc.havocLog = append(st.vc.havocLog, prefix+" ("+why+")")
@@ -759,4 +771,14 @@ func isRefLike(t types.Type) bool {
 		return true
 	}
 	return false
+}
+
+// monotoneCounters: ghost counters that the program only ever increments (every send, every message handed to a
+// session): whatever unknown code ran, their value did not decrease.
+var monotoneCounters = map[string]bool{"ghost:sentTotal": true, "ghost:outTotal": true}
+
+func (st *State) monotone(name string, before *Term) {
+	if monotoneCounters[name] && before != nil && before.Sort.Kind == SInt {
+		st.vc.assume(st, Ge(st.heap[name], before))
+	}
 }
